@@ -394,7 +394,9 @@ OutCall(S, path, value) ==
                       verr == IF found THEN Validate(PortAt(port_namespace, port_name), value)
                               ELSE ValidateDynamicPorts(port_namespace, Map(port_name :> value))
                       S2 == [S1 EXCEPT !.dev = @ \cup verr.dev]
-                  IN IF verr.err                                             \* raise ValueError(msg); an exception raised by a
+                  IN IF found /\ value = NoneV /\ PortAt(port_namespace, port_name).node = "ns"
+                     THEN [S |-> S1, exc |-> "ValueError"]   \* None is "nothing specified" to validate(): not a value to store for a namespace
+                     ELSE IF verr.err                                        \* raise ValueError(msg); an exception raised by a
                      THEN [S |-> S2, exc |-> IF verr.exc # "none" THEN verr.exc ELSE "ValueError"]   \* validator escapes as it is
                      ELSE LET st == StoreOut(S2.outs, path, value)
                           IN IF st.exc # "none" THEN [S |-> [S2 EXCEPT !.dev = @ \cup st.dev], exc |-> st.exc]
